@@ -28,7 +28,7 @@ func verifC14Read() {
 	buf := make([]byte, bufLen, bufCap)
 	maxReads := 2 + maxBody + 1
 	failAt := verifChoice(maxReads+1) - 1
-	conn := &verifStreamConn{data: stream, failAt: failAt, maxReads: maxReads + 1}
+	conn := &verifStreamConn{data: stream, failAt: failAt, maxReads: maxReads + 1, partial: -1}
 
 	n, err := readStreamingPacket(conn, buf)
 
@@ -137,7 +137,7 @@ func verifC14RoundTrip() {
 	for _, f := range w.written {
 		stream = append(stream, f...)
 	}
-	r := &verifStreamConn{data: stream, failAt: -1}
+	r := &verifStreamConn{data: stream, failAt: -1, partial: -1}
 	buf := make([]byte, 8)
 	for i := 0; i < k; i++ {
 		n, err := readStreamingPacket(r, buf)
@@ -172,7 +172,7 @@ func verifC14StartReading() {
 	case 2:
 		stream = append(stream, 0, 2, verifU8())
 	}
-	conn := &verifStreamConn{data: stream, failAt: -1, remote: verifAddr{"10.0.0.2:7"}}
+	conn := &verifStreamConn{data: stream, failAt: -1, remote: verifAddr{"10.0.0.2:7"}, partial: -1}
 	t := newTCPPacketConn(tcpPacketParams{ReadBuffer: 8, Logger: verifNopLogger{}, LocalAddr: verifAddr{"10.0.0.1:1"}})
 	t.conns[conn.remote.String()] = conn
 	t.startReading(conn)
